@@ -14,7 +14,6 @@ import (
 	"strings"
 
 	"go.dedis.ch/kyber/v4"
-	"go.dedis.ch/kyber/v4/group/edwards25519vartime"
 	"go.dedis.ch/kyber/v4/group/mod"
 
 	"kyverif/grpprog"
@@ -167,7 +166,11 @@ func useAcceptedScalar(g kyber.Group, r *vh.Rng, o outcome) (string, string) {
 				g.Scalar().Div(k, s).MarshalBinary()
 			}
 		}},
-		{"Point.Mul", func() { g.Point().Mul(s, nil).MarshalBinary() }},
+		{"Point.Mul", func() {
+			if _, bare := g.(*scalarGroup); !bare {
+				g.Point().Mul(s, nil).MarshalBinary()
+			}
+		}},
 		{"String", func() { _ = s.String() }},
 	}
 	for _, st := range steps {
@@ -196,34 +199,53 @@ func orderTimes(in grpprog.Inst, p kyber.Point) (isNull bool, err string) {
 	return isNull, ""
 }
 
+// edwardsMember: a x^2 + y^2 = 1 + d x^2 y^2 has a solution x for the encoded y,
+// i.e. x^2 = (1 - y^2)/(a - d y^2) is a square, and y is canonical.
+func edwardsMember(re []byte, ep edParam) string {
+	P, a, d := ep.p, ep.a, ep.d
+	y := new(big.Int).SetBytes(rev(re))
+	y.SetBit(y, 8*len(re)-1, 0)
+	if y.Cmp(P) >= 0 {
+		return "re-encoding has y >= p"
+	}
+	yy := new(big.Int).Mul(y, y)
+	u := new(big.Int).Sub(big.NewInt(1), yy)
+	v := new(big.Int).Mul(d, yy)
+	v.Sub(a, v)
+	v.Mod(v, P)
+	if v.Sign() == 0 {
+		return "a - d y^2 = 0"
+	}
+	xx := u.Mul(u, new(big.Int).ModInverse(v, P))
+	xx.Mod(xx, P)
+	if big.Jacobi(xx, P) == -1 {
+		return "no x with (x,y) on the curve"
+	}
+	return ""
+}
+
+func residueMember(re []byte, rp resParam) string {
+	v := new(big.Int).SetBytes(re)
+	if v.Sign() <= 0 || v.Cmp(rp.P) >= 0 {
+		return "value outside (0,P)"
+	}
+	if new(big.Int).Exp(v, rp.Q, rp.P).Cmp(big.NewInt(1)) != 0 {
+		return "v^Q != 1 (mod P): not in the subgroup of order Q"
+	}
+	return ""
+}
+
 func memberOf(in grpprog.Inst, o outcome, bnTwist map[string]fp2) string {
 	re := o.re
+	if ep, ok := edParams[in.Name]; ok {
+		return edwardsMember(re, ep)
+	}
+	if rp, ok := resParams[in.Name]; ok {
+		return residueMember(re, rp)
+	}
 	switch in.Name {
-	case "ed25519", "ed25519+vartime", "ed25519vartime-pkg", "vartime.ext-ed25519", "vartime.proj-E382":
-		// a x^2 + y^2 = 1 + d x^2 y^2: x^2 = (1 - y^2)/(a - d y^2) must be a square
-		P, a, d := pEd, big.NewInt(-1), new(big.Int).Mul(big.NewInt(-121665), new(big.Int).ModInverse(big.NewInt(121666), pEd))
-		if in.Name == "vartime.proj-E382" {
-			P, a, d = pE382, big.NewInt(1), big.NewInt(-67254)
-		}
-		y := new(big.Int).SetBytes(rev(re))
-		y.SetBit(y, 8*len(re)-1, 0)
-		if y.Cmp(P) >= 0 {
-			return "re-encoding has y >= p"
-		}
-		yy := new(big.Int).Mul(y, y)
-		u := new(big.Int).Sub(big.NewInt(1), yy)
-		v := new(big.Int).Mul(d, yy)
-		v.Sub(a, v)
-		v.Mod(v, P)
-		if v.Sign() == 0 {
-			return "a - d y^2 = 0"
-		}
-		xx := u.Mul(u, new(big.Int).ModInverse(v, P))
-		xx.Mod(xx, P)
-		if big.Jacobi(xx, P) == -1 {
-			return "no x with (x,y) on the curve"
-		}
-		return ""
+	case "ed25519", "ed25519+vartime", "ed25519vartime-pkg":
+		return edwardsMember(re, edParam{pEd, big.NewInt(-1), new(big.Int).Mul(big.NewInt(-121665), new(big.Int).ModInverse(big.NewInt(121666), pEd))})
 	case "p256":
 		x := new(big.Int).SetBytes(re[1:33])
 		y := new(big.Int).SetBytes(re[33:65])
@@ -238,11 +260,7 @@ func memberOf(in grpprog.Inst, o outcome, bnTwist map[string]fp2) string {
 		}
 		return ""
 	case "qr512":
-		v := new(big.Int).SetBytes(re)
-		if v.Sign() <= 0 || v.Cmp(pQR512) >= 0 || new(big.Int).Exp(v, qQR512, pQR512).Cmp(big.NewInt(1)) != 0 {
-			return "not a quadratic residue in (0,P)"
-		}
-		return ""
+		return residueMember(re, resParam{pQR512, qQR512, big.NewInt(2)})
 	case "bn256.G1":
 		if !bnG1OnCurve(re, pBN256) {
 			return "y^2 != x^3+3"
@@ -309,13 +327,6 @@ func unreducedCoordinate(p kyber.Point) (why string) {
 		}
 	}
 	return ""
-}
-
-func extraGroups() []grpprog.Inst {
-	return []grpprog.Inst{
-		{Name: "vartime.ext-ed25519", G: new(edwards25519vartime.ExtendedCurve).InitCurve(edwards25519vartime.ParamEd25519(), false)},
-		{Name: "vartime.proj-E382", G: new(edwards25519vartime.ProjectiveCurve).Init(edwards25519vartime.ParamE382(), false)},
-	}
 }
 
 func describe(b []byte) map[string]interface{} {
